@@ -202,7 +202,6 @@ struct hostlist_iterator {
 
 /* ------[ static function prototypes ]------ */
 
-static void _error(char *file, int line, char *mesg, ...);
 static char * _next_tok(char *, char **);
 static int    _zero_padded(unsigned long, int);
 static int    _width_equiv(unsigned long, int *, unsigned long, int *);
@@ -328,27 +327,6 @@ static int hostset_find_host(hostset_t, const char *);
 /* ------[ Function Definitions ]------ */
 
 /* ----[ general utility functions ]---- */
-
-
-/*
- *  Varargs capable error reporting via lsd_fatal_error()
- */
-static void _error(char *file, int line, char *msg, ...)
-{
-    va_list ap;
-    char    buf[1024];
-    int     len = 0;
-    va_start(ap, msg);
-
-    len = vsnprintf(buf, 1024, msg, ap);
-    if ((len < 0) || (len > 1024))
-        buf[1023] = '\0';
-
-    lsd_fatal_error(file, line, buf);
-
-    va_end(ap);
-    return;
-}
 
 
 /*
@@ -1418,7 +1396,6 @@ static int _parse_single_range(const char *str, struct _range *range)
         goto error;
 
     if (range->hi - range->lo + 1 > MAX_RANGE ) {
-        _error(__FILE__, __LINE__, "Too many hosts in range `%s'", orig);
         free(orig);
         seterrno_ret(ERANGE, 0);
     }
@@ -1428,7 +1405,6 @@ static int _parse_single_range(const char *str, struct _range *range)
     return 1;
 
   error:
-    _error(__FILE__, __LINE__, "Invalid range: `%s'", orig);
     free(orig);
     seterrno_ret(EINVAL, 0);
 }
